@@ -276,3 +276,70 @@ SQL_ORDER_SMALL = (
     ("join", ("K",), None, False),
     ("mat", "m1"),
 )
+
+
+# ------------------------------------------------------------------ multi-engine world (C03, C14, C15, C20)
+def multi_world():
+    leaves = (
+        LeafSpec("X", "s", ABC, XROWS),
+        LeafSpec("K", "s", ("a", "d"), KROWS),
+        LeafSpec("E", "s", ABC, (), min_rows=0, max_rows=0),
+        LeafSpec("L", "e1", ABC, XROWS),
+        LeafSpec("L2", "e1", ABC, YROWS),
+        LeafSpec("K1", "e1", ("a", "d"), KROWS),
+        LeafSpec("E1", "e1", ABC, (), min_rows=0, max_rows=0),
+    )
+    return World(engines=(("s", "sql"), ("e1", "it"), ("e2", "it")), leaves=leaves)
+
+
+def pe(op, eng, bt=True, tr=False, req=False):
+    return ("pe", op, eng, bt, tr, req)
+
+
+P_ONLY_SQL = ("only", "sql", P_A_GT_1)
+P_ONLY_IT = ("only", "iteration", P_A_GT_1)
+C_ONLY_SQL = ("conly", "sql", NEG_A)
+C_ONLY_IT = ("conly", "iteration", NEG_A)
+
+MULTI_PLAIN = (
+    ("xfer", "s"),
+    ("xfer", "e1"),
+    ("xfer", "e2"),
+    ("mat", "m1"),
+    ("calc", "x", NEG_A),
+    ("proj", ("a", "b")),
+    ("proj_all",),
+    ("sel", P_A_GT_1),
+    ("dedup",),
+    S((R("c"), ASC), (R("a"), ASC), (R("b"), ASC)),
+    S(),
+    ("slice", 1, 3),
+    ("chain", ("self",)),
+    ("chain", ("L2",)),
+    ("chain", ("E",)),
+    ("sel", P_ONLY_SQL),
+    ("sel", P_ONLY_IT),
+    ("calc", "y", C_ONLY_SQL),
+    ("calc", "y", C_ONLY_IT),
+    S((C_ONLY_IT, ASC)),
+)
+FLAGSETS = ((True, False, False), (True, True, False), (True, False, True), (False, True, False), (False, False, True))
+MULTI_PE_OPS = (
+    ("calc", "z", A_PLUS_B),
+    ("proj", ("a",)),
+    ("sel", P_B_EQ_1),
+    ("dedup",),
+    S((R("c"), DESC)),
+    ("slice", 0, 2),
+    ("sel", P_ONLY_SQL),
+)
+MULTI_PE = tuple(pe(op, eng, *f) for op in MULTI_PE_OPS for eng in ("s", "e1") for f in FLAGSETS)
+MULTI_JOIN = (
+    ("join", ("K",), None, False),
+    ("join", ("K",), P_D_GT_A, False),
+    pe(("join", ("K",), None, False), "s", True, True, False),
+    pe(("join", ("K",), None, False), "s", False, True, False),
+    pe(("join", ("K",), None, True), "s", True, False, False),
+    ("join", ("K1",), None, False),
+)
+MULTI_FULL = MULTI_PLAIN + MULTI_PE + MULTI_JOIN
